@@ -313,14 +313,17 @@ def c19_extra(pid, tier, seed, outdir):
 
 PROPS["C19"]["extra"] = c19_extra
 
-PROPS["C02"]["go_tests"] = ["TestVerifStore", "TestVerifWaitFullQueue"]
-PROPS["C02"]["impl_only_traces"] = ["waitfull"]
+PROPS["C02"]["go_tests"] = ["TestVerifStore", "TestVerifWaitFullQueue", "TestVerifSplitWriters"]
+PROPS["C02"]["impl_only_traces"] = ["waitfull", "splitwriters"]
+PROPS["C02"]["rule"] = STORE_RULE + ("; plus writers of the same keys split where the code splits a write - map update under the shard lock, sending of the policy event later - with other clients' "
+                                     "Sets / Deletes, other halves and deliveries (FIFO or overtaking) in between; after everything is sent and delivered the accounting must be exact "
+                                     "(the store model sends the event with the map update: this is the check of that abstraction on the real code)")
 for _p in ("C11", "C12", "C04"):
     PROPS[_p]["timeout"] = {"quick": 900, "thorough": 3000}
-PROPS["C01"]["go_tests"] = ["TestVerifStore", "TestVerifPoolAlias", "TestVerifRangeConcurrent", "TestVerifRBMutex", "TestVerifLateJoiner"]
-PROPS["C01"]["impl_only_traces"] = ["poolalias", "rangeconc", "latejoiner"]
+PROPS["C01"]["go_tests"] = ["TestVerifStore", "TestVerifPoolAlias", "TestVerifRangeConcurrent", "TestVerifRBMutex", "TestVerifLateJoiner", "TestVerifStorePool"]
+PROPS["C01"]["impl_only_traces"] = ["poolalias", "rangeconc", "latejoiner", "storepool"]
 PROPS["C01"]["rule"] = STORE_RULE + "; plus, for the entry-pool configurations (outside the model), concurrent runs of 8 goroutines on pool-enabled plain and loading stores of 4..13 entries over 48 keys, checking that every value read for a key was written or loaded for that key; and Range racing Delete / Set of the keys of the shard it is visiting (plain and pool): no visit of a key whose Delete has returned, no value older than a returned Set; and a loading Get that starts after a Delete of a freshly loaded key has returned, while the leader of that load is parked (hook H10) before the cleanup of its singleflight call: it must load again"
-PROPS["C01"]["assumptions"] = ["the theorems cover the entry pool disabled; with the pool enabled only the 'never a value of another key' clause is exercised, by a concurrent harness (testing)"]
+PROPS["C01"]["assumptions"] = ["the theorems cover the entry pool disabled; with the pool enabled the property is exercised by monitors only: a concurrent harness ('never a value of another key') and the deterministic store histories re-run with the pool on (TestVerifStorePool: every value read is the latest write of its key)"]
 
 # store-level part of C04 / C03: ticks and reads of the real Store under the deterministic driver
 PROPS["C04"]["go_tests"] = ["TestVerifWheel", "TestVerifStore", "TestVerifPersist"]
